@@ -33,6 +33,7 @@ Inductive req :=
 | QCommitList (names : list nat)                        (* write the names into the lock file, rename it onto tables.list *)
 | QRemove (p : path)
 | QRemoveOne (cands : list nat)        (* unlink one of these tables: Go walks a map, any order *)
+| QOpenOne (cands : list nat)          (* open one of these tables: the order of a directory listing *)
 | QReadDir.
 
 Inductive resp :=
@@ -42,6 +43,7 @@ Inductive resp :=
 | STmp (t : nat)
 | SNew (n : nat) (f : tfile)
 | SRemoved (n : nat)
+| SVisited (n : nat) (f : option tfile)
 | SDir (tabs : list (nat * tfile)).
 
 Inductive prog (A : Type) : Type :=
@@ -78,6 +80,15 @@ Definition apply_req (size_oracle : nat -> N) (choice : option nat) (h : nat) (q
       | None => (s, SRemoved n, FNoEnt)
       | Some _ => ({| f_list := f_list s; f_lock := f_lock s; f_tabs := del n (f_tabs s); f_tlocks := f_tlocks s;
                       f_tmps := f_tmps s; f_next_tab := f_next_tab s; f_next_tmp := f_next_tmp s |}, SRemoved n, FOk)
+      end
+  | QOpenOne cands =>
+      let n := match choice with
+               | Some c => if mem_nat c cands then c else hd 0 cands
+               | None => hd 0 cands
+               end in
+      match lookup n (f_tabs s) with
+      | None => (s, SVisited n None, FNoEnt)
+      | Some f => (s, SVisited n (Some f), FOk)
       end
   | QCreateExcl PLL =>
       match f_lock s with
@@ -369,6 +380,100 @@ Definition add (attempts : nat) (kind : add_kind) (auto : bool) (m : mem) : prog
   | _ => do! rl := reload attempts true m in Ret (fst rl, RLockFailure)
   end.
 
+(* NewAddition / Add / Add / Commit / Close: a transaction of two tables.  The second
+   table holds no transaction of its own; with [same] it claims the update index
+   of the first and is refused, and Close takes the first table back. *)
+Definition add_multi (attempts : nat) (tx : nat) (same : bool) (m : mem) : prog (mem * apires) :=
+  do! r := op (QCreateExcl PLL) in
+  match r with
+  | SOk =>
+      do! c := op QReadList in
+      let cur := match c with SNames (Some l) => l | _ => [] end in
+      if negb (names_eqb cur (mnames m)) then
+        do! _ := op (QRemove PLL) in Ret (m, RLockFailure)
+      else
+        do! t := op QCreateTemp in
+        match t with
+        | STmp tmp =>
+            do! _ := op (QOpenTmp tmp) in
+            let ui := next_index m in
+            do! nw := op (QRenameTmp tmp ui ui [tx]) in
+            match nw with
+            | SNew n1 _ =>
+                do! _ := op (QRemove (PTmp tmp)) in
+                do! t2 := op QCreateTemp in
+                match t2 with
+                | STmp tmp2 =>
+                    if same then
+                      do! _ := op (QRemove (PTmp tmp2)) in
+                      do! _ := op (QRemove (PT n1)) in
+                      do! _ := op (QRemove PLL) in Ret (m, RLockFailure)
+                    else
+                      do! _ := op (QOpenTab n1) in
+                      do! _ := op (QOpenTmp tmp2) in
+                      do! nw2 := op (QRenameTmp tmp2 (ui + 1) (ui + 1) []) in
+                      match nw2 with
+                      | SNew n2 _ =>
+                          do! _ := op (QRemove (PTmp tmp2)) in
+                          do! _ := op (QCommitList (mnames m ++ [n1; n2])) in
+                          do! rl := reload attempts true m in
+                          Ret (fst rl, ROk)
+                      | _ => do! _ := op (QRemove (PT n1)) in do! _ := op (QRemove PLL) in Ret (m, RErr)
+                      end
+                | _ => do! _ := op (QRemove (PT n1)) in do! _ := op (QRemove PLL) in Ret (m, RErr)
+                end
+            | _ => do! _ := op (QRemove PLL) in Ret (m, RErr)
+            end
+        | _ => do! _ := op (QRemove PLL) in Ret (m, RErr)
+        end
+  | _ => Ret (m, RLockFailure)
+  end.
+
+(* Stack.Clean: under the list lock, unlink every unlisted table whose update
+   indices the stack already covers.  A file that vanished since the directory
+   was read is skipped. *)
+Fixpoint clean_loop (fuel : nat) (cands : list nat) (mx : N) : prog unit :=
+  match fuel, cands with
+  | O, _ | _, [] => Ret tt
+  | S f, _ =>
+      do! r := op (QOpenOne cands) in
+      match r with
+      | SVisited n (Some tf) =>
+          let rest := filter (fun x => negb (Nat.eqb x n)) cands in
+          if (tf_max tf <=? mx)%N then do! _ := op (QRemove (PT n)) in clean_loop f rest mx
+          else clean_loop f rest mx
+      | SVisited n None => clean_loop f (filter (fun x => negb (Nat.eqb x n)) cands) mx
+      | _ => Ret tt
+      end
+  end.
+
+Definition clean (attempts : nat) (m : mem) : prog (mem * apires) :=
+  do! r := op (QCreateExcl PLL) in
+  match r with
+  | SOk =>
+      do! c := op QReadList in
+      let cur := match c with SNames (Some l) => l | _ => [] end in
+      if negb (names_eqb cur (mnames m)) then
+        do! _ := op (QRemove PLL) in Ret (m, RLockFailure)
+      else
+        do! rl := reload attempts true m in
+        let m' := fst rl in
+        match snd rl with
+        | RlNotExist => do! _ := op (QRemove PLL) in Ret (m', RErr)
+        | RlOk =>
+            do! d := op QReadDir in
+            match m' with
+            | [] => do! _ := op (QRemove PLL) in Ret (m', ROk)
+            | _ =>
+                let all := match d with SDir tabs => map fst tabs | _ => [] end in
+                let cands := filter (fun n => negb (mem_nat n (mnames m'))) all in
+                do! _ := clean_loop (length cands) cands (last_max m') in
+                do! _ := op (QRemove PLL) in Ret (m', ROk)
+            end
+        end
+  | _ => Ret (m, RLockFailure)
+  end.
+
 (* Stack.Close *)
 Definition close (m : mem) : prog unit :=
   do! c := op QReadList in
@@ -412,11 +517,16 @@ Definition call_prog (attempts : nat) (o : apiop) (m : option mem) : prog (optio
       | [] => Ret (Some mm, ROk)
       | _ => wrap (compact_range attempts 0 (length mm - 1) true mm) (fun r => (Some (fst r), ROk))
       end
+  | AAddMulti tx same, Some mm => wrap (add_multi attempts tx same mm) (fun r => (Some (fst r), snd r))
+  | ACompact first last, Some mm =>
+      if Nat.ltb last (length mm) && Nat.leb first last
+      then wrap (compact_range attempts first last false mm) (fun r => (Some (fst r), ROk))
+      else Ret (Some mm, ROk)
+  | AClean, Some mm => wrap (clean attempts mm) (fun r => (Some (fst r), snd r))
   | AClose, Some mm => wrap (close mm) (fun _ => (None, ROk))
   | AClose, None => Ret (None, ROk)
   | ARead, Some mm => Ret (Some mm, RView (flat_map (fun x => tf_txs (snd x)) mm) (hd_error (rev (flat_map (fun x => tf_txs (snd x)) mm))))
   | _, None => Ret (None, RNoStack)
-  | _, Some mm => Ret (Some mm, RErr)            (* AAddMulti, AClean: not modelled (oracle-checked only) *)
   end.
 
 Definition req_event (h : nat) (q : req) (rs : resp) (fr : fres) : event :=
@@ -430,6 +540,7 @@ Definition req_event (h : nat) (q : req) (rs : resp) (fr : fres) : event :=
   | QCommitList _ => EFs h (FRename PL) PLL fr []
   | QRemove p => EFs h FRemove p fr []
   | QRemoveOne _ => EFs h FRemove (match rs with SRemoved n => PT n | _ => POther end) fr []
+  | QOpenOne _ => EFs h FOpen (match rs with SVisited n _ => PT n | _ => POther end) fr []
   | QReadDir => EFs h FReadDir PDir fr []
   end.
 
